@@ -221,6 +221,8 @@ func c19prop(ev *evid.Rec) func(rt *rapid.T) {
 		failedPost := rapid.IntRange(0, 3).Draw(rt, "failedPost") == 0
 		// the operator's reload request (SIGHUP) may arrive at any moment, also while posts are being made
 		reloadsDuringRounds := rapid.IntRange(0, 2).Draw(rt, "reloadsDuringRounds") == 0
+		// ... and the operator may replace the board file by a much shorter one and reload while clients are reading
+		trimDuringReads := rapid.IntRange(0, 3).Draw(rt, "trimDuringReads") == 0
 		// the time of day at which the case plays (the bubble's clock starts at midnight)
 		startAfter := time.Duration(rapid.IntRange(0, 24*60-1).Draw(rt, "startMinuteOfDay")) * time.Minute
 		opt := hlsim.Options{Agreement: string(agreement), Board: string(initial), Accounts: []hlsim.AccountSpec{acct("admin", "Admin", "adminpw", func() hlref.Access { a := hlref.AllAccess().Defined(); a.Clear(hlref.PrivNoAgreement); return a }())}}
@@ -248,6 +250,31 @@ func c19prop(ev *evid.Rec) func(rt *rapid.T) {
 			time.Sleep(startAfter)
 			for ri, rd := range rounds {
 				c19when = append(c19when, time.Now())
+				if trimDuringReads && ri == len(rounds)/2 && ri > 0 {
+					// every client asks for the board three times while the operator swaps in a short board and reloads.  What
+					// those readers get is not judged (the edit is the operator's, not a post); the board is the short text
+					// from then on, and everything that follows is served as usual
+					for _, c := range cs {
+						for k := 0; k < 3; k++ {
+							id++
+							c.SendAsync(hlref.Tran{Type: hlref.TranGetMsgs, ID: id}.Encode())
+						}
+					}
+					initial = []byte("the operator cleared the board\r")
+					var tg sync.WaitGroup
+					tg.Add(1)
+					go func() {
+						defer tg.Done()
+						must(os.WriteFile(filepath.Join(w.Cfg, "MessageBoard.txt"), initial, 0o644))
+						_ = w.Board.Reload()
+					}()
+					tg.Wait()
+					settle(0)
+					for _, c := range cs {
+						c.TakeInbox()
+					}
+					acked, c19maybe = nil, nil
+				}
 				if failedPost && ri == (len(rounds)+1)/2 {
 					// a post arrives while the board file cannot be rewritten (something sits where the temporary file goes).
 					// Whether that post makes it is the server's business - it is not acknowledged, so nothing is claimed about
@@ -437,7 +464,7 @@ func c19prop(ev *evid.Rec) func(rt *rapid.T) {
 				overlap = true
 			}
 		})
-		ev.Case(evid.Hash(boardSize, agreeSize, fmt.Sprint(rounds), nlogin, fmt.Sprint(len(texts)), variant, editAgreement, staleTmp, failedReload, failedPost, reloadsDuringRounds), overlap, fmt.Sprintf("board:%d", boardSize), fmt.Sprintf("agreement:%d", agreeSize), "post-format:"+variant)
+		ev.Case(evid.Hash(boardSize, agreeSize, fmt.Sprint(rounds), nlogin, fmt.Sprint(len(texts)), variant, editAgreement, staleTmp, failedReload, failedPost, reloadsDuringRounds, trimDuringReads), overlap, fmt.Sprintf("board:%d", boardSize), fmt.Sprintf("agreement:%d", agreeSize), "post-format:"+variant)
 		if overlap && ev.WantSample() {
 			ev.Sample(map[string]any{"engine": "bubble", "board_bytes": boardSize, "agreement_bytes": agreeSize, "rounds(readers/posters by client)": fmt.Sprint(rounds), "simultaneous_logins": nlogin})
 		}
